@@ -44,6 +44,13 @@ def Rgn.ofRect (W H : Nat) (r : Option Rect) : Rgn :=
   Rgn.ofFn W H fun x y => match r with | none => false | some r => r.has x y
 /-- sraRgnEmpty (negated) -/
 def Rgn.nonempty (r : Rgn) : Bool := r.bits.any id
+/-- sraRgnOffset by `(dx,dy)`, as far as it stays on the screen (every use intersects the result
+with an on-screen region) -/
+def Rgn.offset (W H : Nat) (r : Rgn) (dx dy : Int) : Rgn :=
+  Rgn.ofFn W H fun x y =>
+    let sx : Int := (x : Int) - dx
+    let sy : Int := (y : Int) - dy
+    decide (0 ≤ sx) && decide (0 ≤ sy) && r.mem W sx.toNat sy.toNat
 
 structure Client where
   id : Nat
@@ -58,6 +65,10 @@ structure Client where
   requested : Rgn
   pic : Array Px            -- the client's picture (pixels in the client's format)
   tfmt : Option (Format × Nat)   -- SetPixelFormat: `none` = the server's format; else (format, bytes/pixel)
+  useCopyRect : Bool := false
+  copy : Rgn                -- cl->copyRegion (destination of the scheduled copy)
+  copyDX : Int := 0
+  copyDY : Int := 0
   deriving Repr
 
 structure Sess where
@@ -67,40 +78,77 @@ structure Sess where
   failArmed : Option Nat    -- the next write to this client fails
   deriving Repr
 
+/-- the encodings of a SetEncodings message that matter here -/
+inductive Enc where
+  | raw | copyRect | xCursor | richCursor | pointerPos
+  deriving Repr, DecidableEq
+
 inductive ClientKind where
   | raw | x | rich
   deriving Repr, DecidableEq
 
-/-- rfbNewClient, handshake, then SetEncodings [Raw] / [Raw, XCursor, PointerPos] /
-[Raw, RichCursor, PointerPos] -/
-def newClient (s : Sess) (id : Nat) (k : ClientKind) (tfmt : Option (Format × Nat) := none) : Sess :=
-  let W := s.scr.w
-  let H := s.scr.h
-  let shape := k != .raw
-  let c : Client :=
-    { id := id, shape := shape, useRich := k == .rich, posUpd := shape,
-      curX := s.scr.curX, curY := s.scr.curY, wasMoved := shape, wasChanged := shape,
-      modified := Rgn.full W H, requested := Rgn.empty W H, pic := Array.replicate (W * H) 0,
-      tfmt := tfmt }
-  { s with clients := c :: s.clients }
+/-- the lists the three standard client kinds send -/
+def ClientKind.encs : ClientKind → List Enc
+  | .raw => [.raw]
+  | .x => [.raw, .xCursor, .pointerPos]
+  | .rich => [.raw, .richCursor, .pointerPos]
 
-/-- SetEncodings sent again by client `id`: all cursor flags are reset, then set from the list
-([Raw] / [Raw, XCursor, PointerPos] / [Raw, RichCursor, PointerPos]).  Enabling a cursor encoding
-marks the box of the (possibly painted) soft cursor for redraw and makes shape and position due;
-taking cursor-shape support away marks the box where the soft cursor must now appear (repaired
-code only: `Variant.setencFixed`). -/
-def setEncodings (v : Variant) (s : Sess) (id : Nat) (k : ClientKind) : Sess :=
+/-- the cursor-related flags while a SetEncodings list is read; `marked`:
+rfbRedrawAfterHideCursor(cl,NULL) has been called -/
+structure EncFlags where
+  shape : Bool
+  useRich : Bool
+  posUpd : Bool
+  wasMoved : Bool
+  wasChanged : Bool
+  useCopyRect : Bool
+  marked : Bool
+  deriving Repr, DecidableEq
+
+/-- one `case` of the SetEncodings loop -/
+def encStep (f : EncFlags) : Enc → EncFlags
+  | .raw => f
+  | .copyRect => { f with useCopyRect := true }
+  | .xCursor => { f with marked := f.marked || !f.shape, shape := true, wasChanged := true }
+  | .richCursor => { f with marked := f.marked || !f.shape, shape := true, useRich := true, wasChanged := true }
+  | .pointerPos => if !f.posUpd then { f with posUpd := true, wasMoved := true } else f
+
+/-- all flags reset ("Reset all flags to defaults"), the list read in order, then "Disabling cursor
+position updates" when no cursor-shape encoding was listed -/
+def encFlags (wasMoved0 : Bool) (l : List Enc) : EncFlags :=
+  let f := l.foldl encStep ⟨false, false, false, wasMoved0, false, false, false⟩
+  { f with posUpd := f.posUpd && f.shape }
+
+/-- SetEncodings from client `c` (of a session whose screen is `scr`): the flags from the list; the
+box of the (possibly painted) soft cursor is marked when a cursor-shape encoding is enabled, and —
+repaired code, `Variant.setencFixed` — when cursor-shape support is taken away; a client that no
+longer lists CopyRect gets its scheduled copy as pixel data -/
+def clientSetEncodings (v : Variant) (scr : Screen) (c : Client) (l : List Enc) : Client :=
+  let W := scr.w
+  let H := scr.h
+  let f := encFlags c.wasMoved l
+  let mark := f.marked || (v.setencFixed && c.shape && !f.shape)
+  let m1 := if mark then Rgn.or W H c.modified (Rgn.ofRect W H (cursorBox scr c.curX c.curY)) else c.modified
+  let drop := !f.useCopyRect && c.copy.nonempty
+  { c with shape := f.shape, useRich := f.useRich, posUpd := f.posUpd, wasChanged := f.wasChanged,
+           wasMoved := f.wasMoved, useCopyRect := f.useCopyRect,
+           modified := if drop then Rgn.or W H m1 c.copy else m1,
+           copy := if drop then Rgn.empty W H else c.copy,
+           copyDX := if drop then 0 else c.copyDX, copyDY := if drop then 0 else c.copyDY }
+
+def setEncodings (v : Variant) (s : Sess) (id : Nat) (l : List Enc) : Sess :=
+  { s with clients := s.clients.map fun c => if c.id == id then clientSetEncodings v s.scr c l else c }
+
+/-- rfbNewClient, handshake, then SetEncodings with the list `l` (and SetPixelFormat `tfmt`) -/
+def newClient (v : Variant) (s : Sess) (id : Nat) (l : List Enc) (tfmt : Option (Format × Nat) := none) : Sess :=
   let W := s.scr.w
   let H := s.scr.h
-  let shape := k != .raw
-  { s with clients := s.clients.map fun c =>
-      if c.id == id then
-        let mark := shape || (v.setencFixed && c.shape)
-        { c with shape := shape, useRich := k == .rich, posUpd := shape,
-                 wasChanged := shape, wasMoved := shape || c.wasMoved,
-                 modified := if mark then Rgn.or W H c.modified (Rgn.ofRect W H (cursorBox s.scr c.curX c.curY))
-                             else c.modified }
-      else c }
+  let c : Client :=
+    { id := id, shape := false, useRich := false, posUpd := false,
+      curX := s.scr.curX, curY := s.scr.curY, wasMoved := false, wasChanged := false,
+      modified := Rgn.full W H, requested := Rgn.empty W H, pic := Array.replicate (W * H) 0,
+      tfmt := tfmt, copy := Rgn.empty W H }
+  { s with clients := clientSetEncodings v s.scr c l :: s.clients }
 
 /-- PointerEvent from client `id` (deferPtrUpdateTime = 0, not view-only) -/
 def ptrEvent (s : Sess) (id x y buttons : Nat) : Sess :=
@@ -127,7 +175,8 @@ def request (s : Sess) (id : Nat) (incr : Bool) (r : Rect) : Sess :=
   { s with clients := s.clients.map fun c =>
       if c.id == id then
         { c with requested := Rgn.or W H c.requested rr,
-                 modified := if incr then c.modified else Rgn.or W H c.modified rr }
+                 modified := if incr then c.modified else Rgn.or W H c.modified rr,
+                 copy := if incr then c.copy else Rgn.sub W H c.copy rr }
       else c }
 
 /-- all clients: `modifiedRegion |= r` -/
@@ -139,6 +188,53 @@ def draw (s : Sess) (r : Rect) (val : Nat → Nat → Px) : Option Sess :=
   (writeBox (fbIdx s.scr.w r.x1 r.y1) (fun j i _ => some (.put (val (r.x1 + i) (r.y1 + j))))
       (r.y2 - r.y1) (r.x2 - r.x1) s.scr.fb).map fun fb =>
     markModified { s with scr := { s.scr with fb := fb } } (Rgn.ofRect s.scr.w s.scr.h (some r))
+
+/-- the cursor bitmap placed with its hot-spot at `(cx,cy)`, NOT clipped to the screen
+(`sraRgnCreateRect(x, y, x+w, y+h)` in rfbScheduleCopyRegion), as a predicate on coordinates -/
+def rawBox (c : Cursor) (cx cy : Nat) (x y : Int) : Bool :=
+  decide ((cx : Int) - c.xhot ≤ x) && decide (x < (cx : Int) - c.xhot + c.w) &&
+  decide ((cy : Int) - c.yhot ≤ y) && decide (y < (cy : Int) - c.yhot + c.h)
+
+/-- rfbScheduleCopyRegion for one client; `dst` is the copy's destination, `(dx,dy)` the
+displacement.  For a soft-cursor client the painted cursor must neither be overwritten by the copy
+(cursor box ∩ destination → modified) nor be dragged along (the displaced cursor box ∩ destination
+→ modified).  `Variant.copyNullFixed = false`: the original code dereferences `screen->cursor`
+without a test — with no cursor installed it crashes (modelled as `none`). -/
+def clientScheduleCopy (scr : Screen) (c : Client) (dst : Rgn) (dx dy : Int) : Client :=
+  let W := scr.w
+  let H := scr.h
+  if !c.useCopyRect then { c with modified := Rgn.or W H c.modified dst } else
+  -- an earlier copy not yet sent
+  let (m1, cp1) :=
+    if c.copy.nonempty then
+      if c.copyDX != dx || c.copyDY != dy then (Rgn.or W H c.modified c.copy, Rgn.empty W H)
+      else (Rgn.or W H c.modified (Rgn.and W H (Rgn.offset W H dst (-dx) (-dy)) c.copy), c.copy)
+    else (c.modified, c.copy)
+  let cp2 := Rgn.or W H cp1 dst
+  -- modified pixels that are now copied somewhere: the copies are modified too
+  let m2 := Rgn.or W H m1 (Rgn.and W H (Rgn.offset W H m1 dx dy) cp2)
+  let m3 :=
+    if c.shape then m2 else
+    match scr.cursor with
+    | none => m2
+    | some cur =>
+      let inDst := Rgn.ofFn W H fun x y => rawBox cur c.curX c.curY x y && cp2.mem W x y
+      let dragged := Rgn.ofFn W H fun x y => rawBox cur c.curX c.curY ((x : Int) - dx) ((y : Int) - dy) && cp2.mem W x y
+      Rgn.or W H (Rgn.or W H m2 inDst) dragged
+  { c with modified := m3, copy := cp2, copyDX := dx, copyDY := dy }
+
+/-- rfbDoCopyRect(screen, x1,y1,x2,y2, dx,dy): the rectangle is the destination; every pixel gets
+the value of the pixel `(dx,dy)` before it (the row order of the memmoves makes the copy behave
+like a simultaneous one); then rfbScheduleCopyRegion -/
+def doCopy (s : Sess) (r : Rect) (dx dy : Int) : Option Sess :=
+  let W := s.scr.w
+  (writeBox (fbIdx W r.x1 r.y1)
+      (fun j i _ =>
+        (s.scr.fb[(((r.y1 + j : Nat) : Int) - dy).toNat * W + (((r.x1 + i : Nat) : Int) - dx).toNat]?).map .put)
+      (r.y2 - r.y1) (r.x2 - r.x1) s.scr.fb).map fun fb =>
+    let scr' := { s.scr with fb := fb }
+    let dst := Rgn.ofRect s.scr.w s.scr.h (some r)
+    { s with scr := scr', clients := s.clients.map fun c => clientScheduleCopy scr' c dst dx dy }
 
 /-- rfbRedrawAfterHideCursor(cl, NULL) for every client without cursor-shape support -/
 def redrawSoft (s : Sess) : Sess :=
@@ -158,11 +254,19 @@ def setCursor (s : Sess) (c : Option Cursor) : Sess :=
 def pending (s : Sess) (c : Client) : Bool :=
   (c.shape && c.wasChanged) ||
   (!c.shape && (c.curX != s.scr.curX || c.curY != s.scr.curY)) ||
-  (c.posUpd && c.wasMoved) || c.modified.nonempty
+  (c.posUpd && c.wasMoved) || c.copy.nonempty || c.modified.nonempty
 
 /-- how pixels go to client `c` of a screen -/
 def Client.wire (scr : Screen) (c : Client) : Wire :=
   { tr := transPx scr.fmt c.tfmt, bpp := match c.tfmt with | none => scr.bpp | some (_, b) => b }
+
+/-- what the client makes of the CopyRect rectangles covering `rc` (sent in an order that makes
+them behave like one simultaneous copy: property C02): pixel `p` gets the old picture's `p - (dx,dy)` -/
+def picCopy (W H : Nat) (rc : Rgn) (dx dy : Int) (pic : Array Px) : Array Px :=
+  Array.ofFn (n := W * H) fun k =>
+    if rc.mem W (k.val % W) (k.val / W) then
+      (pic[(((k.val / W : Nat) : Int) - dy).toNat * W + (((k.val % W : Nat) : Int) - dx).toNat]?).getD 0
+    else (pic[k.val]?).getD 0
 
 /-- what the client decodes from the Raw rectangles covering `upd` (pixels translated by `tr`) -/
 def picUpdate (W H : Nat) (upd : Rgn) (tr : Px → Px) (fb pic : Array Px) : Array Px :=
@@ -182,6 +286,7 @@ structure UpdObs where
   shape : Option (List UInt8)
   pos : Option (List UInt8)
   upd : Rgn
+  copyRgn : Rgn             -- the region sent as CopyRect rectangles
   pic : Array Px
   cbpp : Nat                -- the client's bytes per pixel
 
@@ -189,14 +294,29 @@ def removeClient (s : Sess) (id : Nat) : Sess :=
   { s with clients := s.clients.filter (fun c => c.id != id),
            pointerClient := if s.pointerClient == some id then none else s.pointerClient }
 
-/-- does rfbUpdateClient call rfbSendFramebufferUpdate, and does that get past its
-"nothing to send" return?  (`FB_UPDATE_PENDING && !sraRgnEmpty(requestedRegion)`, then the early
-`return TRUE`) -/
-def willSend (s : Sess) (c : Client) : Bool :=
-  (pending s c && c.requested.nonempty) &&
-  !(!(Rgn.and s.scr.w s.scr.h c.modified c.requested).nonempty &&
+/-- `sraRgnSubtract(cl->copyRegion, cl->modifiedRegion)`, the first thing rfbSendFramebufferUpdate
+does to the regions -/
+def copyLeft (s : Sess) (c : Client) : Rgn := Rgn.sub s.scr.w s.scr.h c.copy c.modified
+
+/-- `(modified ∪ copyRegion) ∩ requested` -/
+def upd0 (s : Sess) (c : Client) : Rgn :=
+  Rgn.and s.scr.w s.scr.h (Rgn.or s.scr.w s.scr.h c.modified (copyLeft s c)) c.requested
+
+/-- updateCopyRegion: the part of the copy whose destination and source were both requested -/
+def updCopyRegion (s : Sess) (c : Client) : Rgn :=
+  Rgn.and s.scr.w s.scr.h (Rgn.and s.scr.w s.scr.h (copyLeft s c) c.requested)
+    (Rgn.offset s.scr.w s.scr.h c.requested c.copyDX c.copyDY)
+
+/-- does rfbUpdateClient call rfbSendFramebufferUpdate? (`FB_UPDATE_PENDING && !sraRgnEmpty(requestedRegion)`) -/
+def updCalled (s : Sess) (c : Client) : Bool := pending s c && c.requested.nonempty
+
+/-- does rfbSendFramebufferUpdate get past its "nothing to send" `return TRUE`? -/
+def updProceeds (s : Sess) (c : Client) : Bool :=
+  !(!(upd0 s c).nonempty &&
     (c.shape || (c.curX == s.scr.curX && c.curY == s.scr.curY)) &&
     !(c.shape && c.wasChanged) && !(c.posUpd && c.wasMoved))
+
+def willSend (s : Sess) (c : Client) : Bool := updCalled s c && updProceeds s c
 
 /-- a client without cursor-shape support whose `cursorX/Y` lags behind the screen's -/
 def softMoved (s : Sess) (c : Client) : Bool :=
@@ -206,11 +326,12 @@ def softMoved (s : Sess) (c : Client) : Bool :=
 def updCurX (s : Sess) (c : Client) : Nat := if softMoved s c then s.scr.curX else c.curX
 def updCurY (s : Sess) (c : Client) : Nat := if softMoved s c then s.scr.curY else c.curY
 
-/-- updateRegion: `modified ∩ requested`, plus the old and the new cursor box when the pointer moved -/
+/-- updateRegion: `(modified ∪ copy) ∩ requested` without what goes as CopyRect, plus the old and
+the new cursor box when the pointer moved -/
 def updRegion (s : Sess) (c : Client) : Rgn :=
   let W := s.scr.w
   let H := s.scr.h
-  let upd0 := Rgn.and W H c.modified c.requested
+  let upd0 := Rgn.sub W H (upd0 s c) (updCopyRegion s c)
   if softMoved s c then
     Rgn.or W H (Rgn.or W H upd0 (Rgn.ofRect W H (cursorBox s.scr c.curX c.curY)))
       (Rgn.ofRect W H (cursorBox s.scr s.scr.curX s.scr.curY))
@@ -231,16 +352,25 @@ def clientAfter (s : Sess) (c : Client) (fbSent : Array Px) : Client :=
   { c with curX := updCurX s c, curY := updCurY s c,
            wasChanged := if c.shape && c.wasChanged then false else c.wasChanged,
            wasMoved := if c.posUpd && c.wasMoved then false else c.wasMoved,
-           modified := Rgn.sub s.scr.w s.scr.h c.modified (Rgn.and s.scr.w s.scr.h c.modified c.requested),
+           modified := Rgn.sub s.scr.w s.scr.h
+             (Rgn.sub s.scr.w s.scr.h (Rgn.or s.scr.w s.scr.h c.modified (copyLeft s c))
+               (Rgn.sub s.scr.w s.scr.h (upd0 s c) (updCopyRegion s c)))
+             (updCopyRegion s c),
            requested := Rgn.empty s.scr.w s.scr.h,
-           pic := picUpdate s.scr.w s.scr.h (updRegion s c) (c.wire s.scr).tr fbSent c.pic }
+           copy := Rgn.empty s.scr.w s.scr.h, copyDX := 0, copyDY := 0,
+           pic := picUpdate s.scr.w s.scr.h (updRegion s c) (c.wire s.scr).tr fbSent
+             (picCopy s.scr.w s.scr.h (updCopyRegion s c) c.copyDX c.copyDY c.pic) }
 
 /-- rfbUpdateClient → rfbSendFramebufferUpdate(cl, cl->modifiedRegion) for client `c` of `s`.
 `none` = an out-of-bounds access in show/hide or a failed cursor conversion.
 A failing write (`failArmed`) makes the update fail after the cursor was painted: the client is
 closed and removed, the rest of the bracket is the same. -/
 def sendUpdate (v : Variant) (s : Sess) (c : Client) : Option (Sess × Option UpdObs) :=
-  if !willSend s c then some (s, none) else
+  if !updCalled s c then some (s, none) else
+  if !updProceeds s c then
+    -- rfbSendFramebufferUpdate returned early; it had already reduced copyRegion
+    some ({ s with clients := s.clients.map fun d => if d.id == c.id then { c with copy := copyLeft s c } else d }, none)
+  else
   (bracket v s c).map fun (scr2, scr3, shapeMsg) =>
     let c' := clientAfter s c scr2.fb
     let fails := s.failArmed == some c.id
@@ -248,7 +378,7 @@ def sendUpdate (v : Variant) (s : Sess) (c : Client) : Option (Sess × Option Up
       { id := c.id, res := !fails, before := s.scr.fb, painted := scr2.fb, after := scr3.fb,
         curX := c'.curX, curY := c'.curY, ucl := scr2.underLen,
         shape := shapeMsg, pos := if c.posUpd && c.wasMoved then some (cursorPosRect scr2) else none,
-        upd := updRegion s c, pic := c'.pic, cbpp := (c.wire s.scr).bpp }
+        upd := updRegion s c, copyRgn := updCopyRegion s c, pic := c'.pic, cbpp := (c.wire s.scr).bpp }
     if fails then
       ({ removeClient { s with scr := scr3 } c.id with failArmed := none }, some obs)
     else
@@ -278,9 +408,9 @@ def Cursor.wfb (c : Cursor) : Bool :=
 /-- the operations of a session; ill-formed ones (duplicate client id, rectangle outside the
 screen, ill-formed cursor) are ignored, as the harness answers `bad-op` -/
 inductive Op where
-  | client (id : Nat) (k : ClientKind) (tfmt : Option (Format × Nat))
+  | client (id : Nat) (l : List Enc) (tfmt : Option (Format × Nat))
   | ptr (id x y buttons : Nat)
-  | setenc (id : Nat) (k : ClientKind)
+  | setenc (id : Nat) (l : List Enc)
   | req (id : Nat) (incr : Bool) (r : Rect)
   | draw (r : Rect) (val : Nat → Nat → Px)
   | cursor (c : Option Cursor)
@@ -291,8 +421,8 @@ def Rect.inside (r : Rect) (W H : Nat) : Bool :=
   decide (r.x1 < r.x2) && decide (r.y1 < r.y2) && decide (r.x2 ≤ W) && decide (r.y2 ≤ H)
 
 def applyOp (v : Variant) (s : Sess) : Op → Option Sess
-  | .client id k t => if s.clients.any (fun c => c.id == id) then some s else some (newClient s id k t)
-  | .setenc id k => some (setEncodings v s id k)
+  | .client id l t => if s.clients.any (fun c => c.id == id) then some s else some (newClient v s id l t)
+  | .setenc id l => some (setEncodings v s id l)
   | .ptr id x y b => if s.clients.any (fun c => c.id == id) then some (ptrEvent s id x y b) else some s
   | .req id incr r => if r.inside s.scr.w s.scr.h then some (request s id incr r) else some s
   | .draw r val => if r.inside s.scr.w s.scr.h then draw s r val else some s
